@@ -13,19 +13,19 @@ SIM_SANITIZER_DEFAULTS("")
 
 namespace sim {
 #define G(N) bool group_run_##N(std::string const&, std::string const&, Json const&, RunOut&); void group_list_##N(std::vector<KindInfo>&);
-G(a) G(b) G(c) G(d) G(e) G(f)
+G(a) G(b) G(c) G(d) G(e) G(f) G(g)
 #undef G
 
 static bool run_plan(Json const& plan, RunOut& out)
 {
     std::string k = plan.str("kind"), a = plan.str("alloc");
     return group_run_a(k, a, plan, out) || group_run_b(k, a, plan, out) || group_run_c(k, a, plan, out) ||
-           group_run_d(k, a, plan, out) || group_run_e(k, a, plan, out) || group_run_f(k, a, plan, out);
+           group_run_d(k, a, plan, out) || group_run_e(k, a, plan, out) || group_run_f(k, a, plan, out) || group_run_g(k, a, plan, out);
 }
 static std::vector<KindInfo> all_kinds()
 {
     std::vector<KindInfo> v;
-    group_list_a(v); group_list_b(v); group_list_c(v); group_list_d(v); group_list_e(v); group_list_f(v);
+    group_list_a(v); group_list_b(v); group_list_c(v); group_list_d(v); group_list_e(v); group_list_f(v); group_list_g(v);
     return v;
 }
 
